@@ -149,6 +149,36 @@ func StressConcurrentSequences(rounds int) string {
 		defer runtime.GOMAXPROCS(runtime.GOMAXPROCS(4))
 	}
 	self, peer := NodeID(0), NodeID(1)
+	// the primitive both paths number their advertisements with: concurrent callers must all get different numbers
+	{
+		m0 := routing.NewManager(self)
+		const workers = 4
+		got := make([][]uint64, workers)
+		var wg0 sync.WaitGroup
+		var rdy int32
+		wg0.Add(workers)
+		for w := 0; w < workers; w++ {
+			go func(w int) {
+				defer wg0.Done()
+				atomic.AddInt32(&rdy, 1)
+				for atomic.LoadInt32(&rdy) < workers {
+				}
+				for i := 0; i < rounds*5; i++ {
+					got[w] = append(got[w], m0.IncrementSequence())
+				}
+			}(w)
+		}
+		wg0.Wait()
+		seen0 := map[uint64]bool{}
+		for _, g := range got {
+			for _, q := range g {
+				if seen0[q] {
+					return fmt.Sprintf("routing.Manager.IncrementSequence returned %d to two of %d concurrent callers: two different advertisements of one origin would share a sequence number", q, workers)
+				}
+				seen0[q] = true
+			}
+		}
+	}
 	snd := &seqSender{peers: []identity.AgentID{peer}, org: self}
 	mgr := routing.NewManager(self)
 	mgr.AddLocalRoute(cidrOf(1), 0)
